@@ -182,17 +182,33 @@ def make(tier):
             a += A('rc == 0 && n == %d' % n + ''.join(' && out[%d] == val[1][%d]' % (i, i) for i in range(n)), 'separator never fails: exactly the elements parsed completely, in order (a separator without a following element is given back)')
             a += A('g_off == %s' % off, 'the input is rewound to the end of the last complete element (a trailing separator is not consumed)')
         lemma('h_separator_%s' % nm, s, 'u32 n, out[3]; u32 rc = vf_separator(&n, out);', a, 'separator: inner outcomes %s, separator outcomes %s' % (c1, c2))
+    # ---------------- list = start >> (end -> empty | (separator(inner, sep) >> end)); start / sep / end are the unit children with id 2 (calls in order), inner is id 1
+    lists = [('f', [], [1], 1, None), ('F', [], [2], 2, None), ('s_s', [], [0, 0], 0, 0), ('s_f_f_f', [1], [0, 1, 1], 1, None), ('s_F', [], [0, 2], 2, None), ('s_f_i_f_s', [0], [0, 1, 1, 0], 0, 1)]
+    for nm, c1, c2, rc, n in lists:
+        s = '  ' + ' '.join('res[1][%d] = %d;' % (i, c) for i, c in enumerate(c1)) + ' ' + ' '.join('res[2][%d] = %d;' % (i, c) for i, c in enumerate(c2)) + '\n'
+        a = A('off_at[2][0] == off0 && ord[0] == 2 && c_calls[2] == %d && c_calls[1] == %d' % (len(c2), len(c1)), 'start is tried first at the start position; then end; only after a non-fatal failure of end the elements and end again')
+        if rc == 0:
+            a += A('rc == 0 && n == %d' % n + ''.join(' && out[%d] == val[1][%d]' % (i, i) for i in range(n)), 'the list succeeds with exactly the parsed elements')
+        elif rc == 1:
+            a += A('rc == 1', 'a list whose start or end does not match fails with an ORDINARY (non-fatal) error, so that enclosing alternatives / optionals / repetitions can still backtrack')
+        else:
+            a += A('rc == 2', 'a fatal error of a child propagates')
+        lemma('h_list_%s' % nm, s, 'u32 n, out[3]; u32 rc = vf_list(&n, out);', a, 'list: inner outcomes %s, start/separator/end outcomes %s' % (c1, c2))
     P.generated['c02_ghost.h'] = PRE
     P.generated['c02_h.c'] = HOOKS + '\n'.join(b for _, b, _ in cases)
     u = P.unit('c02', 'shim.cpp', harness=['c02_h.c'], pre=['c02_ghost.h'], inline=True, maxb=32)
     for name, body, what in cases:
-        bounded = name.startswith('h_rep') or name.startswith('h_separator') or name.startswith('h_skip_rep')
+        bounded = name.startswith('h_rep') or name.startswith('h_separator') or name.startswith('h_skip_rep') or name.startswith('h_list')
         kw = dict(backends=['sat', 'cvc5'], timeout=900)
         if name.startswith('h_separator'):   # measured: 250-360 s (f, F, i_s_F), 650 s (i_f, i_s_f), > 900 s (i_s_i_f), cvc5 only (sat exceeds 12 GB)
             kw = dict(backends=['cvc5'], stagger=0, timeout=1200)
             if name in ('h_separator_i_f', 'h_separator_i_s_f'):
                 kw.update(tier='thorough', timeout=2400)
             if name == 'h_separator_i_s_i_f':
+                kw.update(tier='thorough', timeout=3600, optional=True)
+        if name.startswith('h_list'):
+            kw = dict(backends=['cvc5', 'sat'], stagger=5, timeout=1500, mem=16)
+            if name in ('h_list_s_f_i_f_s', 'h_list_s_f_f_f'):   # measured: no answer in 1500 s (separator inside the list)
                 kw.update(tier='thorough', timeout=3600, optional=True)
         u.lemma(name, cls='B' if bounded else 'P', unwind=40, native=False,
                 bound='at most 3 iterations (the script of child outcomes ends with a failure within 3 calls); std::vector of results grows by push_back' if bounded else '',
